@@ -145,10 +145,13 @@ Definition len_cksum (cls id : bytes) (p : bytes) : result (bytes * bytes) :=
 
 Definition mode_ok (mode : N) : bool := (mode =? 0)%N || (mode =? 1)%N || (mode =? 2)%N.
 
+(* bound on group repeat counts the executable model accepts (see Walk.v) *)
+Definition budget : nat := N.to_nat 6000.
+
 Definition do_walk (cls id : bytes) (mode : N) (bf : bool) (k : kwargs) (pay : bytes) (kwo : option attrs)
   : result (wst) :=
   do pd <- get_dict cls id mode k pay;
-  walk_list atttype readonly_names cfgdb storsize scalround cls id mode bf kwo pd []
+  walk_list atttype readonly_names cfgdb storsize scalround cls id mode bf kwo budget pd []
     {| w_off := O; w_pay := pay; w_attrs := [] |}.
 
 (* UBXMessage(cls, id, mode, parsebitfield=bf, **kwargs) with class and id already bytes *)
